@@ -102,7 +102,11 @@ class Scripted:
         self.args_seen.append(list(args) if args is not None else None)
         if ans == "R":
             raise self.exc_class("scripted test raises at test %d" % self.k)
-        return ans == "Y"
+        # the test's answer is used for its truth value (hand-written tests `return` whatever they have: None when
+        # they fall off the end, a count, a match object): answer with a different truthy / falsy value each time
+        if ans == "Y":
+            return (True, 1, "yes", [0])[self.k % 4]
+        return (False, None, 0, "")[self.k % 4]
 
 
 class Clock:
@@ -134,9 +138,41 @@ ATOMS = {"line": "TestcaseLine", "char": "TestcaseChar", "symbol": "TestcaseSymb
          "jsstr": "TestcaseJsStr", "attrs": "TestcaseAttrs"}
 
 
+def _cli_expressible(cfg):
+    def pow2(v):
+        return isinstance(v, int) and v >= 1 and v & (v - 1) == 0
+    lim = cfg.get("limit")
+    return (pow2(cfg.get("min", 1)) and pow2(cfg.get("max", 2 ** 30)) and cfg.get("repeat", "last") in
+            ("last", "always", "never") and (lim is None or (isinstance(lim, int) and not isinstance(lim, bool))))
+
+
 def make_strategy(name, cfg):
     import lithium.strategies as st
     s = getattr(st, STRATS[name])()
+    if name != "check-only" and _cli_expressible(cfg):
+        # the way a user configures a strategy: its own add_args / process_args on a real parser
+        import argparse
+        argv = []
+        mn, mx, rep = cfg.get("min", 1), cfg.get("max", 2 ** 30), cfg.get("repeat", "last")
+        if mn == mx and rep == "never" and (mn + len(name)) % 2 == 0:
+            argv += ["--chunk-size", str(mn)]
+        else:
+            if "min" in cfg:
+                argv += ["--min", str(mn)]
+            if "max" in cfg:
+                argv += [f"--max={mx}"]
+            if "repeat" in cfg:
+                argv += ["--repeat", rep]
+        if cfg.get("first"):
+            argv += ["--repeat-first-round"]
+        if cfg.get("limit") is not None:
+            argv += ["--max-run-time", str(cfg["limit"])]
+        if name == "minimize-balanced" and cfg.get("move"):
+            argv += ["--with-experimental-move"]
+        parser = argparse.ArgumentParser()
+        s.add_args(parser)
+        s.process_args(parser, parser.parse_args(argv))
+        return s
     if name != "check-only":
         s.minimize_min = cfg.get("min", 1)
         s.minimize_max = cfg.get("max", 2 ** 30)
